@@ -164,6 +164,11 @@ func (w *RuntimeWorld) ErrorLogs(max int) []string {
 
 // NewRuntimeWorld builds the runtime (inside the bubble).
 func NewRuntimeWorld(variant string, h HistCfg, ro RuntimeOpts, outs ...*Outcome) (*RuntimeWorld, error) {
+	return NewRuntimeWorldWrapped(variant, h, ro, nil, outs...)
+}
+
+// NewRuntimeWorldWrapped is NewRuntimeWorld with a wrapper applied to the state handed to the runtime.
+func NewRuntimeWorldWrapped(variant string, h HistCfg, ro RuntimeOpts, wrap func(state.State) state.State, outs ...*Outcome) (*RuntimeWorld, error) {
 	w := &RuntimeWorld{StoreWorld: NewStoreWorld(variant, h)}
 	if len(outs) > 0 {
 		w.FaultOut = outs[0]
@@ -179,6 +184,9 @@ func NewRuntimeWorld(variant string, h HistCfg, ro RuntimeOpts, outs ...*Outcome
 		w.listFaultsLeft = ro.ListFaults
 		w.FaultMode = true
 		rtState = faultyState{State: w.St, left: &w.listFaultsLeft, out: w.FaultOut}
+	}
+	if wrap != nil {
+		rtState = wrap(rtState)
 	}
 	rt, err := runtime.NewRuntime(rtState, zap.New(core), opts...)
 	if err != nil {
